@@ -5,6 +5,7 @@ package verifsim
 import (
 	"encoding/json"
 	"fmt"
+	"sort"
 	"net/url"
 	"reflect"
 	"strings"
@@ -550,6 +551,63 @@ func scenC05Pub(r *Run) {
 			return
 		}
 	}
+	// 1b. a post whose secondary fetches (authors, audience, parent, replies) are broken must still
+	// be built in time, with the broken parts as error items; its replies must be harvestable
+	if t.Chance(2, 3) {
+		pn := f.next()
+		pid := fmt.Sprintf("https://%s/o/p%d", host, pn)
+		refs := map[string]string{}
+		for _, k := range []string{"attributedTo", "audience", "inReplyTo", "replies"} {
+			if t.Chance(1, 2) {
+				u := fmt.Sprintf("https://%s/x/%s%d", host, k, pn)
+				refs[k] = u
+				switch k {
+				case "attributedTo", "audience":
+					f.Serve(u, Doc{"id": u, "type": "Person", "name": "A0x", "preferredUsername": "a"})
+				case "inReplyTo":
+					f.Serve(u, Doc{"id": u, "type": "Note", "name": "T9x"})
+				case "replies":
+					f.Serve(u, Doc{"id": u, "type": "Collection", "items": []any{}})
+				}
+				r.Net.TargetFault[host+"|"+mustURL(u).RequestURI()] = faults[t.Draw(len(faults))]
+			}
+		}
+		pd := Doc{"id": pid, "type": "Note", "name": "T8x", "content": "x"}
+		for k, u := range refs {
+			if k == "attributedTo" && t.Chance(1, 2) {
+				ok := f.simpleActor(host)
+				pd[k] = []any{ok, u}
+			} else {
+				pd[k] = u
+			}
+		}
+		f.Serve(pid, pd)
+		var built any
+		var kids []pub.Tangible
+		tk := r.Spawn("post", func() {
+			built = pub.New(pid, nil)
+			if tg, ok := built.(pub.Tangible); ok {
+				tg.String(80)
+				tg.Parents(2)
+				if c := tg.Children(); c != nil {
+					kids, _, _ = c.Harvest(3, 0)
+				}
+			}
+		})
+		r.Drive(func() bool { return tk.Done }, r.S.Now()+6*bound, 40000)
+		if r.S.Panicked() {
+			return
+		}
+		if !tk.Done {
+			r.Violate("C05", "M-time", "hang/secondary-fetch", fmt.Sprintf("building a post whose %v fetches are broken is still blocked at %s; pending %v", keysOf(refs), r.S.Now(), headOf(r.S.PendingKeys(), 6)))
+			return
+		}
+		if took := tk.End - tk.Start; took > 3*bound {
+			r.Violate("C05", "M-time", "late/secondary-fetch", fmt.Sprintf("building a post whose %v fetches are broken took %s (three levels of fetching: %s)", keysOf(refs), took, 3*bound))
+		}
+		_ = kids
+		r.S.Probe("c05_post_with_broken_secondary_fetches")
+	}
 	// 2. the listing
 	var opened any
 	tk := r.Spawn("open", func() { opened = pub.New(l.RootURL, nil) })
@@ -593,4 +651,13 @@ func scenC05Pub(r *Run) {
 			r.S.Probe("c05_faulted_entry_is_error_item")
 		}
 	}
+}
+
+func keysOf(m map[string]string) []string {
+	var out []string
+	for k := range m {
+		out = append(out, k)
+	}
+	sort.Strings(out)
+	return out
 }
